@@ -175,7 +175,7 @@ func c05Source(b *PB, ct *c05T, kind string, t *Ty, pkg int) (main *Item, suppor
 	return nil, nil, false
 }
 
-var c05Placements = []string{"direct", "nested+direct", "siblings", "otherpkg+direct", "unused-var(check)", "unneeded-part", "inline+direct", "two-levels+direct"}
+var c05Placements = []string{"direct", "nested+direct", "siblings", "otherpkg+direct", "unused-var(check)", "unneeded-part", "inline+direct", "two-levels+direct", "inline-siblings"}
 
 // c05Case builds the conflict program and its control twin for one cell.
 func c05Case(id string, k1, k2, class, placement string, alias bool) (mut, ctl *Program, name string, ok bool) {
@@ -231,6 +231,7 @@ func c05Case(id string, k1, k2, class, placement string, alias bool) (mut, ctl *
 		otherF := b.Func(0, "NewOther", other, false, false)
 		otherF.Stub = true
 		result := ct.T
+		wantOther := false
 		var bl []Ref
 		switch placement {
 		case "direct":
@@ -255,15 +256,19 @@ func c05Case(id string, k1, k2, class, placement string, alias bool) (mut, ctl *
 				bl = append(bl, wrap(pkg1, "SetA", g1))
 				bl = append(bl, g2...)
 			}
-		case "siblings":
+		case "siblings", "inline-siblings":
 			if len(g1) == 0 || (withSecond && len(g2) == 0) {
 				return nil, "", false
 			}
 			s1 := b.Set(0, "SetA", g1...)
+			s1.Inline = placement == "inline-siblings"
 			bl = append(bl, SetRef(s1.ID))
 			if withSecond {
-				s2 := b.Set(0, "SetB", g2...)
+				// the second set also holds something the injector needs, so that it is "used"
+				s2 := b.Set(0, "SetB", append(append([]Ref{}, g2...), ItemRef(otherF.ID))...)
+				s2.Inline = placement == "inline-siblings"
 				bl = append(bl, SetRef(s2.ID))
+				wantOther = true
 			}
 		case "unused-var(check)":
 			if k1 == "arg" || k2 == "arg" {
@@ -284,6 +289,14 @@ func c05Case(id string, k1, k2, class, placement string, alias bool) (mut, ctl *
 		}
 		if placement != "unneeded-part" && class == "PS" && (k1 == "fieldP") && !withSecond {
 			// fine: control needs *S from the field provider
+		}
+		if wantOther {
+			// result := User(T, Other)
+			u := b.Carrier(0, "User")
+			fu := b.Func(0, "NewUser", u, false, false, ct.T, other)
+			fu.Stub = true
+			bl = append(bl, ItemRef(fu.ID))
+			result = u
 		}
 		b.Inj("Init", result, false, false, params, bl...)
 		return b.P, DiagName(b.P, ct.T), true
@@ -331,6 +344,11 @@ func c05TwoPaths(id string, variant int) (*Program, *Program, string) {
 			bl = []Ref{SetRef(a.ID), ItemRef(fu.ID)}
 			if dup {
 				bl = append(bl, ItemRef(f.ID))
+			}
+		case 3: // the same named set listed twice
+			bl = []Ref{SetRef(a.ID), ItemRef(fu.ID)}
+			if dup {
+				bl = append(bl, SetRef(a.ID))
 			}
 		}
 		b.Inj("Init", u, false, false, nil, bl...)
@@ -388,7 +406,7 @@ func CheckC05(e *Env) int {
 			}
 		}
 	}
-	for v := 0; v < 6; v++ {
+	for v := 0; v < 8; v++ {
 		n++
 		m, c, name := c05TwoPaths(fmt.Sprintf("cf%04d", n), v)
 		cell := fmt.Sprintf("two-paths/variant=%d", v)
